@@ -7,6 +7,8 @@ static void emit_tok(int r, const char *t, int n)
     unsigned h = 2166136261u; int i;
     for (i = 0; i < n; i++) { h ^= (unsigned char) t[i]; h *= 16777619u; }
     printf("%d:%d:%u\n", r, n, h);
+    /* a scanner that never ends is stopped here (reported as abnormal), not by filling the memory of the harness */
+    { static long emitted; if (++emitted > 400000) { fflush(stdout); fprintf(stderr, "more than 400000 actions executed\n"); exit(7); } }
 }
 """
 
